@@ -8,6 +8,11 @@ Families
   bisect_abort    unattainable precisions (0, 1e-30) and exact iteration counts on dyadic brackets
                   (max_iter = k-1, k, k+1 for a search that needs exactly k halvings), under a watchdog:
                   RuntimeError exactly when the model says the iteration budget is exceeded, never a hang.
+  bisect_rank     0-dim / lower-rank float64 targets under vector- and matrix-valued functions, precisions 1e-10/1e-12,
+                  default dtype float32 and float64; result shape and dtype.
+  iv_scalar_price one 0-dim float64 price against vector log-moneyness / maturity through every entry point.
+  bisect_autograd monotone functions whose VALUE is computed by autograd (torch.autograd.grad of a polynomial,
+                  autogreek.delta of bs_european_price, BSLookbackOption().theta), grad enabled / ambient no_grad.
   bisect_sequence 2-3 consecutive searches (different functions, directions, targets) that share the caller's
                   full-shape bound tensors: every call within precision of its own root; bounds bitwise unchanged.
   bisect_subulp   precision positive but finer than the float spacing of the bound dtype at the root (float32
@@ -20,6 +25,9 @@ Families
                   Oracle in price space (no division by a vanishing vega).
   iv_bound        modules attached to a derivative: price() / implied_volatility() with the arguments read from the
                   derivative's buffers (scripted market, all paths).
+  iv_subulp       precision below the float spacing of the price dtype through every implied-volatility entry point
+                  (find_implied_volatility on module / functional prices, the 4 modules; float32 and float64).
+  iv_history      histories of implied-volatility searches with different brackets in one process.
   iv_batch        the same cases of one module and one direction in ONE call (a tensor over moneyness /
                   maturity / strike), as implied volatilities are computed in practice.
 """
@@ -64,12 +72,12 @@ class watchdog:
     of iterations the model allows: 2 s (room for one-off lazy imports inside torch - an interrupted
     import would leave a half-initialised module behind) + 4 ms per iteration and per unit of work (a
     healthy iteration costs ~40 us on these tensor sizes).  After the first hang seen in this process the
-    remaining calls get at most 0.3 s, so that an implementation that never stops cannot make the check
+    remaining calls get at most 0.15 s, so that an implementation that never stops cannot make the check
     run much longer than usual."""
 
     def __init__(self, iterations, work=1.0):
         budget = 2.0 + 0.004 * iterations * work
-        self.seconds = min(budget, 0.3) if _HUNG else budget
+        self.seconds = min(budget, 0.15) if _HUNG else budget
 
     def _handler(self, signum, frame):
         raise _Hang()
@@ -141,6 +149,8 @@ def _elements(block):
             a, b = sign * block["slope"], 0.25
         else:
             a, b = sign * SLOPES[(i + rot) % len(SLOPES)], OFFSETS[(i + rot) % len(OFFSETS)]
+            if block.get("mixed_direction") and i % 2:
+                a = -a      # elements of opposite directions in one call (supported since the per-element direction fix)
         if block["bracket_kind"] == "tensor":
             lo, hi = block["brackets"][(i + block.get("bracket_rotation", rot)) % len(block["brackets"])]
         else:
@@ -392,6 +402,215 @@ def bisect_subulp(ctx, block):
             return
 
 
+AUTOGRAD_PROGRAMS = ("poly_grad", "poly_grad_wrapped", "autogreek_delta", "autogreek_delta_wrapped", "lookback_theta")
+
+
+def _autograd_program(name, dtype):
+    """(torch fn, model g in mpmath, exact inverse or None, bracket).  The VALUE of fn is a derivative that fn
+    obtains from autograd:
+      poly_grad          d/dx (x^4/4 + x^2/2) = x^3 + x by torch.autograd.grad (needs grad mode enabled by the caller)
+      poly_grad_wrapped  the same inside ``with torch.enable_grad()`` (works under an ambient no_grad)
+      autogreek_delta    pfhedge.autogreek.delta of bs_european_price as a function of log-moneyness (N(d1))
+      autogreek_delta_wrapped   the same inside ``with torch.enable_grad()``
+      lookback_theta     BSLookbackOption().theta (decorated with enable_grad in /repo) as a function of
+                         log-moneyness on a stretch where the model's theta is strictly decreasing"""
+    import pfhedge.autogreek as autogreek
+    import pfhedge.nn.functional as F
+    from pfhedge.nn import BSLookbackOption
+    T, V, M = 1.0, 0.2, -0.1
+    if name.startswith("poly_grad"):
+        def raw(x):
+            x = x.detach().clone().requires_grad_()
+            y = x ** 4 / 4 + x ** 2 / 2
+            return torch.autograd.grad(y.sum(), x)[0]
+        g, ginv, bracket = (lambda x: x ** 3 + x), _cubic_inv, [-2.0, 3.0]
+    elif name.startswith("autogreek_delta"):
+        def raw(x):
+            return autogreek.delta(F.bs_european_price, log_moneyness=x, time_to_maturity=torch.full_like(x, T),
+                                   volatility=torch.full_like(x, V), strike=1.0)
+        w = mp.mpf(V) * mp.sqrt(T)
+        # N(d1): the delta of the call w.r.t. the spot K e^x with K = 1 is N(d1) - and autogreek.delta differentiates
+        # w.r.t. the spot
+        g = lambda x: mp.ncdf(x / w + w / 2)
+        ginv = lambda y: w * (mp.sqrt(2) * mp.erfinv(2 * y - 1)) - w * w / 2
+        bracket = [-0.5, 0.5]
+    elif name == "lookback_theta":
+        module = BSLookbackOption(strike=1.0)
+
+        def raw(x):
+            return module.theta(log_moneyness=x, max_log_moneyness=torch.full_like(x, M), time_to_maturity=torch.full_like(x, T),
+                                volatility=torch.full_like(x, V))
+        g = lambda x: B.greek("theta", "lookback", mp.exp(x), mp.exp(mp.mpf(M)), 1, T, V)
+        ginv, bracket = None, [-0.6, -0.25]
+    else:
+        raise KeyError(name)
+    if name.endswith("_wrapped"):
+        def fn(x):
+            with torch.enable_grad():
+                return raw(x)
+    else:
+        fn = raw
+    return fn, g, ginv, bracket
+
+
+@family
+def bisect_autograd(ctx, block):
+    """Monotone functions whose value is itself computed by autograd, searched with grad mode enabled and
+    under an ambient torch.no_grad() (programs that do not enable grad themselves are only run with grad
+    enabled: under no_grad they are not functions of x on /repo either)."""
+    from pfhedge._utils.bisect import bisect
+    name, ambient = block["program"], block["ambient"]
+    dtype = torch.float64
+    fn, g, ginv, bracket = _autograd_program(name, dtype)
+    lo, hi = bracket
+    shape = tuple(block["shape"])
+    n = _numel(shape)
+    precision = block["precision"]
+    glo, ghi = g(mp.mpf(lo)), g(mp.mpf(hi))
+    if ginv is None:
+        # the stretch must be what it says: the model strictly monotone on a grid of the bracket
+        grid = [g(mp.mpf(lo) + (mp.mpf(hi) - lo) * k / 8) for k in range(9)]
+        if not (all(a < b for a, b in zip(grid, grid[1:])) or all(a > b for a, b in zip(grid, grid[1:]))):
+            raise HarnessError(f"{name}: the model is not monotone on {bracket}")
+    fr = block["fractions"]
+    rot = block["rotation"]
+    tg = [float(glo + mp.mpf(fr[(i + rot) % len(fr)]) * (ghi - glo)) for i in range(n)]
+    target = torch.tensor(tg, dtype=dtype).reshape(shape)
+    lower, upper = torch.tensor(lo, dtype=dtype), torch.tensor(hi, dtype=dtype)
+    nstar = max(0, math.ceil(math.log2((hi - lo) / precision)))
+    ctx.tick(n, nontrivial=n)
+    try:
+        with watchdog(nstar + 2, work=10):
+            with (torch.no_grad if ambient == "no_grad" else torch.enable_grad)():
+                out = bisect(fn, target, lower, upper, precision=precision, max_iter=nstar + 2)
+    except _Hang:
+        ctx.violation("bisect", "hang", f"bisect({name}, ambient {ambient}) did not stop", block=block)
+        return
+    except RuntimeError as e:
+        ctx.violation("bisect", "autograd_valued_function_raises",
+                      f"bisect({name}) with ambient grad mode '{ambient}' raised {type(e).__name__}: {str(e)[:160]}; the function "
+                      f"evaluates fine when called directly in that mode and the model completes the search in {nstar} halvings",
+                      observed=f"{type(e).__name__}: {str(e)[:200]}", expected="a root", block=block)
+        return
+    if tuple(out.shape) != shape:
+        ctx.violation("bisect", "shape", f"output shape {tuple(out.shape)} != {shape}", block=block)
+        return
+    got = out.detach().to(torch.float64).reshape(-1).tolist()
+    eps = 2.0 ** -52
+    for i, (x, y) in enumerate(zip(got, tg)):
+        if ginv is not None:
+            root = min(max(ginv(mp.mpf(y)), mp.mpf(lo)), mp.mpf(hi))
+            # value rounding of an autograd-evaluated smooth function: 64 eps relative, moved to x by the slope
+            slope = abs(mp.diff(g, root))
+            ok = abs(mp.mpf(x) - root) <= precision + 64 * eps * (abs(mp.mpf(y)) + 1) / slope
+            exp_ = float(root)
+        else:
+            # residual oracle: the model's values at x -+ precision bracket the target (up to the rounding of the
+            # implementation's Greek, 1e-10 relative - cf. the derived tolerance of C08)
+            a, b = g(max(mp.mpf(x) - precision, mp.mpf(lo))), g(min(mp.mpf(x) + precision, mp.mpf(hi)))
+            tolv = 1e-10 * (abs(y) + 1e-6)
+            ok = min(a, b) - tolv <= y <= max(a, b) + tolv
+            exp_ = f"x with model value {y!r}"
+        if x != x or not ok:
+            ctx.violation("bisect", "root_of_autograd_valued_function",
+                          f"bisect({name}, element {i}, bracket {bracket}, target {y!r}, precision {precision}, ambient grad mode "
+                          f"'{ambient}') = {x!r}" + (f"; root = {exp_!r}" if ginv is not None else
+                                                     f"; the model's value there is {float(g(mp.mpf(x)))!r}"),
+                          observed=x, expected=exp_, block=block)
+            return
+    ctx.outcome(("autograd", name, ambient, round(got[0], 6)))
+
+
+class default_dtype:
+    """torch.set_default_dtype for the duration of one call (restored even on error)."""
+
+    def __init__(self, name):
+        self.new = DT[name]
+
+    def __enter__(self):
+        self.old = torch.get_default_dtype()
+        torch.set_default_dtype(self.new)
+
+    def __exit__(self, *a):
+        torch.set_default_dtype(self.old)
+        return False
+
+
+@family
+def bisect_rank(ctx, block):
+    """Targets of lower rank than the function's output (0-dim, or a trailing-axis vector under a matrix-valued
+    function): every output element has its own root for the (broadcast) target.  float64 throughout, under
+    default dtype float32 and float64; the result must have the broadcast shape and stay float64 (tight
+    precisions make any detour through float32 visible)."""
+    from pfhedge._utils.bisect import bisect
+    g_t, g_m, dg_m, ginv_m, _ = PROGRAMS[block["fn"]]
+    shape, tshape = tuple(block["shape"]), tuple(block["tshape"])
+    n = _numel(shape)
+    sgn = -1.0 if block["decreasing"] else 1.0
+    avals = [sgn * [1.0, 2.0, 3.0, 1.5][i % 4] for i in range(n)]   # per-element slopes whose ranges overlap on the bracket
+    bvals = [0.0] * n
+    lo, hi = block["bracket"]
+    precision = block["precision"]
+    lo_m, hi_m = mp.mpf(lo), mp.mpf(hi)
+    # a target every element can attain: between the largest lower end and the smallest upper end of the ranges
+    ends = [sorted([a * g_m(lo_m) + b, a * g_m(hi_m) + b]) for a, b in zip(avals, bvals)]
+    tlo, thi = max(e[0] for e in ends), min(e[1] for e in ends)
+    if not tlo < thi:
+        raise HarnessError(f"bisect_rank: no common target for {block}")
+    nt = _numel(tshape)
+    fr = block["fractions"]
+    tvals = [float(tlo + mp.mpf(fr[(k + block["rotation"]) % len(fr)]) * (thi - tlo)) for k in range(nt)]
+    tdtype = {"float64": torch.float64, "float32": torch.float32, "int64": torch.int64}[block.get("target_dtype", "float64")]
+    if tdtype == torch.int64:
+        tvals = [int(min(max(round(y), math.ceil(float(tlo) + 1e-9)), math.floor(float(thi) - 1e-9))) for y in tvals]
+        if not all(tlo < y < thi for y in tvals):
+            raise HarnessError(f"bisect_rank: no integer target in the common range for {block}")
+    elif tdtype == torch.float32:
+        tvals = [float(torch.tensor(y, dtype=torch.float32)) for y in tvals]
+    with default_dtype(block["default_dtype"]):
+        a = torch.tensor(avals, dtype=torch.float64).reshape(shape)
+        b = torch.tensor(bvals, dtype=torch.float64).reshape(shape)
+        target = torch.tensor(tvals, dtype=tdtype).reshape(tshape)
+        if block["bounds"] == "full":
+            lower, upper = torch.full(shape, lo, dtype=torch.float64), torch.full(shape, hi, dtype=torch.float64)
+        else:
+            lower, upper = torch.tensor(lo, dtype=torch.float64), torch.tensor(hi, dtype=torch.float64)
+        tfull = target.expand(shape).reshape(-1).tolist()
+        nstar = max(0, math.ceil(math.log2((hi - lo) / precision)))
+        ctx.tick(n, nontrivial=n)
+        try:
+            with watchdog(nstar + 2):
+                out = bisect(lambda x: a * g_t(x) + b, target, lower, upper, precision=precision, max_iter=nstar + 2)
+        except _Hang:
+            ctx.violation("bisect", "hang", f"bisect did not stop on {block}", block=block)
+            return
+        except RuntimeError as e:
+            ctx.violation("bisect", "raises_on_attainable_precision", f"RuntimeError (max_iter={nstar + 2}) on {block}: {e}",
+                          observed=str(e), expected="roots", block=block)
+            return
+    if tuple(out.shape) != shape or out.dtype != torch.float64:
+        ctx.violation("bisect", "shape_or_dtype_lower_rank_target",
+                      f"target of shape {list(tshape)} under a function of shape {list(shape)} (target dtype {block.get('target_dtype', 'float64')}, bounds and coefficients float64, default dtype "
+                      f"{block['default_dtype']}): result shape {list(out.shape)} dtype {out.dtype}",
+                      observed=[list(out.shape), str(out.dtype)], expected=[list(shape), "torch.float64"], block=block)
+        return
+    eps = 2.0 ** -52
+    for i, (x, y) in enumerate(zip(out.reshape(-1).tolist(), tfull)):
+        root = ginv_m((mp.mpf(y) - bvals[i]) / avals[i])
+        slope = abs(avals[i] * dg_m(root))
+        size = abs(avals[i] * g_m(root)) + abs(bvals[i]) + abs(y)
+        tol = precision + 8 * eps * size / slope + 4 * eps * max(abs(lo), abs(hi))
+        if x != x or abs(mp.mpf(x) - root) > tol:
+            ctx.violation("bisect", "root_lower_rank_target",
+                          f"bisect({block['fn']}{' decreasing' if block['decreasing'] else ''}, element {i}: a={avals[i]}, b={bvals[i]}, "
+                          f"bracket [{lo}, {hi}] ({block['bounds']} bounds), target {y!r} given with shape {list(tshape)} to a function "
+                          f"of shape {list(shape)}, precision {precision}, default dtype {block['default_dtype']}) = {x!r}; root = "
+                          f"{float(root)!r} (|diff| {float(abs(mp.mpf(x) - root)):.3e} > {float(tol):.3e})",
+                          observed=x, expected=float(root), block=block)
+            return
+    ctx.outcome(("rank", block["fn"], block["decreasing"], tuple(tshape), round(float(out.reshape(-1)[0]), 9)))
+
+
 @family
 def bisect_abort(ctx, block):
     """Iteration budget.  Exact arithmetic: the width after n halvings is W / 2^n; the loop runs while
@@ -522,10 +741,9 @@ def monotone_direction(product, call, s, m, t):
     return r
 
 
-def price_tol(product, s, m, t, v, K, p):
+def price_tol(product, s, m, t, v, K, p, eps=2.0 ** -52):
     """Rounding of the implementation's float64 price (same derivation as in C08): terms of size
     <= K (e^s + e^m + 1)(1 + w(1 + |d|)), inputs move d by eps (1+|s|+|m|)/w."""
-    eps = 2.0 ** -52
     w = v * math.sqrt(t)
     d = abs(s) / w + w / 2
     if product in NEEDS_MAX:
@@ -558,7 +776,7 @@ def _iv_call(module, product, lm, mm, t, v, precision):
     return price, module.implied_volatility(log_moneyness=lm, time_to_maturity=t, price=price, **kw)
 
 
-def _iv_verdict(product, call, K, case, v, iv, precision, direction):
+def _iv_verdict(product, call, K, case, v, iv, precision, direction, lo_b=None, hi_b=None, eps=2.0 ** -52):
     """Price-space oracle.  f = the model's price (strictly monotone, direction d).  The returned iv is
     within `precision` of a volatility reproducing the price iff (for d = +1)
         f(min(iv + precision, 1)) >= f(v) - tolP   and   f(max(iv - precision, 0.001)) <= f(v) + tolP,
@@ -569,13 +787,15 @@ def _iv_verdict(product, call, K, case, v, iv, precision, direction):
     U = K if product in ("european", "lookback") else 1
     f = lambda x: U * model_price(product, call, s, m, t, max(float(x), 1e-12))
     fv = f(v)
-    tolP = price_tol(product, s, m, t, v, K, float(fv))
+    lo_b = V_LO if lo_b is None else lo_b
+    hi_b = V_HI if hi_b is None else hi_b
+    tolP = price_tol(product, s, m, t, v, K, float(fv), eps)
     # candidates are volatilities of the bracket (the model's monotonicity is only established there)
-    hi, lo = f(min(iv + precision, V_HI)), f(max(iv - precision, V_LO))
+    hi, lo = f(min(iv + precision, hi_b)), f(max(iv - precision, lo_b))
     if direction < 0:
         hi, lo = lo, hi
     ok = (hi >= fv - tolP) and (lo <= fv + tolP)
-    informative = abs(f(min(v + 2 * precision, V_HI)) - f(max(v - 2 * precision, V_LO))) > 10 * tolP
+    informative = abs(f(min(v + 2 * precision, hi_b)) - f(max(v - 2 * precision, lo_b))) > 10 * tolP
     return ok, informative, float(fv), tolP
 
 
@@ -771,6 +991,215 @@ def iv_bound(ctx, block):
         ctx.outcome((product, call, "bound", given, sigma, round(float(iv[N // 2, 0]), 6)))
 
 
+def _iv_entry(entry, product, call, K, dtype):
+    """callable(lm, mm, t, price, **kw) for one implied-volatility entry point.
+    'module': BS*Option(...).implied_volatility (kw: precision);
+    'functional': pfhedge._utils.bisect.find_implied_volatility on the module's price (kw: precision, lower,
+    upper, max_iter); 'functional_bs': the same on the functional bs_*_price."""
+    from pfhedge._utils.bisect import find_implied_volatility
+    import pfhedge.nn.functional as F
+    module = _module(product, call, K)
+    if entry == "module":
+        if product in NEEDS_MAX:
+            return lambda lm, mm, t, price, **kw: module.implied_volatility(
+                log_moneyness=lm, max_log_moneyness=mm, time_to_maturity=t, price=price, **kw)
+        return lambda lm, mm, t, price, **kw: module.implied_volatility(log_moneyness=lm, time_to_maturity=t, price=price, **kw)
+    if entry == "functional":
+        pricer = module.price
+    else:
+        base = getattr(F, f"bs_{product}_price")
+        if product == "european":
+            pricer = lambda log_moneyness, time_to_maturity, volatility: base(log_moneyness, time_to_maturity, volatility, strike=K, call=call)
+        elif product == "european_binary":
+            pricer = lambda log_moneyness, time_to_maturity, volatility: base(log_moneyness, time_to_maturity, volatility, call=call)
+        elif product == "american_binary":
+            pricer = lambda log_moneyness, max_log_moneyness, time_to_maturity, volatility: base(
+                log_moneyness, max_log_moneyness, time_to_maturity, volatility)
+        else:
+            pricer = lambda log_moneyness, max_log_moneyness, time_to_maturity, volatility: base(
+                log_moneyness, max_log_moneyness, time_to_maturity, volatility, strike=K)
+    if product in NEEDS_MAX:
+        return lambda lm, mm, t, price, **kw: find_implied_volatility(
+            pricer, price, log_moneyness=lm, max_log_moneyness=mm, time_to_maturity=t, **kw)
+    return lambda lm, mm, t, price, **kw: find_implied_volatility(pricer, price, log_moneyness=lm, time_to_maturity=t, **kw)
+
+
+@family
+def iv_subulp(ctx, block):
+    """Requested precision positive but below half the float spacing of the price's dtype at the volatility
+    that generated the price, through every implied-volatility entry point.  The bracket cannot get that
+    narrow (adjacent floats), so the search cannot converge within its 100 iterations: RuntimeError - or a
+    result that really is within the requested precision of the generating volatility."""
+    product, call, K = block["product"], block["call"], block["K"]
+    dtype = DT[block["dtype"]]
+    precision = block["precision"]
+    vs = block["v"]
+    for entry in block.get("entries", ["module", "functional", "functional_bs"]):
+        run = _iv_entry(entry, product, call, K, dtype)
+        module = _module(product, call, K)
+        site = f"{CLASSES[product]}.implied_volatility" if entry == "module" else "find_implied_volatility"
+        for case in _cases(block):
+            s, m, t = case
+            if monotone_direction(product, call, s, m, t) == 0:
+                continue
+            n = len(vs)
+            lm, mm, tt = (torch.full((n,), x, dtype=dtype) for x in (s, m, t))
+            vv = torch.tensor(vs, dtype=dtype)
+            vfloat = vv.to(torch.float64).tolist()
+            if not all(precision < _spacing_below(x, dtype) / 2 for x in vfloat):
+                raise HarnessError(f"iv_subulp block is attainable: {block}")
+            price = _price_call(module, product, lm, mm, tt, vv)
+            mini = dict(block, cases=[list(case)], entries=[entry])
+            mini.pop("grid", None)
+            ctx.tick(n, nontrivial=n)
+            try:
+                with watchdog(100, work=10):
+                    iv = run(lm, mm, tt, price, precision=precision)
+            except _Hang:
+                ctx.violation(site, "hang", f"{entry} implied volatility (precision={precision}) did not stop at {case}", block=mini)
+                continue
+            except RuntimeError:
+                ctx.add("iv_subulp_searches_aborted", 1)
+                ctx.outcome(("iv_subulp", entry, product, block["dtype"], "RuntimeError"))
+                continue
+            ctx.outcome(("iv_subulp", entry, product, block["dtype"], "returned"))
+            for v, x in zip(vfloat, iv.to(torch.float64).tolist()):
+                if x != x or abs(x - v) > precision:
+                    ctx.violation(site, "returns_coarser_than_requested_precision",
+                                  f"{entry} implied volatility of {CLASSES[product]}(call={call}, strike={K}) at (s={s}, m={m}, t={t}), "
+                                  f"{block['dtype']}, precision={precision}: returned {x!r} without error for the price of volatility "
+                                  f"{v!r}; the floats of this dtype are {_spacing_below(v, dtype):.2e} apart there, so no bracket "
+                                  f"narrower than the request exists: the search cannot converge and must abort",
+                                  observed=x, expected=f"RuntimeError, or a value within {precision} of {v!r}", block=dict(mini, v=[v]))
+                    break
+
+
+@family
+def iv_scalar_price(ctx, block):
+    """ONE float64 price (0-dim tensor) inverted against vector log-moneyness / maturity: each element has its own
+    implied volatility for that price.  Every entry point, tight precisions, default dtype float32 and float64."""
+    product, call, K = block["product"], block["call"], block["K"]
+    precision = block["precision"]
+    cases = [tuple(c) for c in block["cases"]]
+    s0, m0, t0 = cases[len(cases) // 2]
+    U = K if product in ("european", "lookback") else 1
+    P = float(U * model_price(product, call, s0, m0, t0, block["v"]))
+    for entry in block.get("entries", ["module", "functional", "functional_bs"]):
+        site = f"{CLASSES[product]}.implied_volatility" if entry == "module" else "find_implied_volatility"
+        with default_dtype(block["default_dtype"]):
+            run = _iv_entry(entry, product, call, K, torch.float64)
+            lm = torch.tensor([c[0] for c in cases], dtype=torch.float64)
+            mm = torch.tensor([c[1] for c in cases], dtype=torch.float64)
+            tt = torch.tensor([c[2] for c in cases], dtype=torch.float64)
+            price = torch.tensor(P, dtype=torch.float64)
+            mini = dict(block, entries=[entry])
+            ctx.tick(len(cases), nontrivial=len(cases))
+            try:
+                with watchdog(100, work=10):
+                    iv = run(lm, mm, tt, price, precision=precision)
+            except _Hang:
+                ctx.violation(site, "hang", f"{entry} implied volatility of a scalar price did not stop", block=mini)
+                continue
+            except RuntimeError as e:
+                ctx.violation(site, "raises", f"{entry} implied volatility of the scalar float64 price {P!r} against vector "
+                              f"log-moneyness/maturity (precision {precision}) raised {e} although "
+                              f"{math.ceil(math.log2((V_HI - V_LO) / precision))} halvings suffice", observed=str(e), block=mini)
+                continue
+        if tuple(iv.shape) != (len(cases),) or iv.dtype != torch.float64:
+            ctx.violation(site, "shape_or_dtype_scalar_price", f"{entry}: result shape {list(iv.shape)} dtype {iv.dtype}",
+                          observed=[list(iv.shape), str(iv.dtype)], expected=[[len(cases)], "torch.float64"], block=mini)
+            continue
+        for (s, m, t), x in zip(cases, iv.tolist()):
+            d = monotone_direction(product, call, s, m, t)
+            f = lambda v: U * model_price(product, call, s, m, t, v)
+            if d == 0 or not (min(f(V_LO), f(V_HI)) < P < max(f(V_LO), f(V_HI))):
+                ctx.add("iv_scalar_price_elements_skipped", 1)
+                continue
+            tolP = price_tol(product, s, m, t, max(x, V_LO), K, P)
+            a, b = f(max(x - precision, V_LO)), f(min(x + precision, V_HI))
+            if x != x or not (min(a, b) - tolP <= P <= max(a, b) + tolP):
+                ctx.violation(site, "iv_scalar_price",
+                              f"{entry} implied volatility of {CLASSES[product]}(call={call}, strike={K}) for the scalar float64 price "
+                              f"{P!r} at (s={s}, m={m}, t={t}), precision {precision}, default dtype {block['default_dtype']}: iv = "
+                              f"{x!r}, but the model price there is {float(f(x))!r} (|diff| {abs(float(f(x)) - P):.3e} > {tolP:.1e})",
+                              observed=x, expected=f"volatility with price {P!r}", block=mini)
+                break
+        ctx.outcome(("iv_scalar", entry, product, call, block["default_dtype"], round(float(iv[0]), 9)))
+
+
+IV_BRACKETS = [[0.001, 1.0], [0.3, 1.0], [0.001, 0.5], [0.05, 2.0]]
+
+
+@family
+def iv_history(ctx, block):
+    """A history of implied-volatility searches in one process (module-level state, if any, carries over):
+    find_implied_volatility with its own bracket / module.implied_volatility with the default bracket, on the
+    European call (price strictly increasing in the volatility on every bracket).  Each call is checked on its
+    own: the result lies in ITS bracket; when the generating volatility is inside the bracket it is recovered
+    (price-space oracle); when it is outside, the search ends at the nearer end of the bracket (what a
+    bisection of a monotone function does and what /repo does in a single call: the returned upper bound
+    converges onto that end).  The result of a call must also not depend on the calls made before it:
+    the same call repeated later in the process must return bitwise the same tensor."""
+    product, call, K = "european", True, block["K"]
+    dtype = DT[block["dtype"]]
+    eps = float(torch.finfo(dtype).eps)
+    prec = block.get("precision", 1e-6)
+    cases = [tuple(c) for c in block["cases"]]
+    lm = torch.tensor([c[0] for c in cases], dtype=dtype)
+    tt = torch.tensor([c[2] for c in cases], dtype=dtype)
+    module = _module(product, call, K)
+    seen = _HISTORY_RESULTS
+    for k, (entry, bracket, v) in enumerate(block["calls"]):
+        lo_b, hi_b = bracket if entry != "module" else (V_LO, V_HI)
+        run = _iv_entry(entry, product, call, K, dtype)
+        vv = torch.full_like(lm, v)
+        price = _price_call(module, product, lm, lm, tt, vv)
+        kw = {} if entry == "module" else {"lower": lo_b, "upper": hi_b}
+        site = f"{CLASSES[product]}.implied_volatility" if entry == "module" else "find_implied_volatility"
+        mini = dict(block, calls=block["calls"][:k + 1])
+        what = f"call {k + 1} of the history {block['calls'][:k + 1]} ({block['dtype']}, K={K})"
+        ctx.tick(len(cases), nontrivial=len(cases) if k else 0)
+        try:
+            with watchdog(100, work=10):
+                iv = run(lm, lm, tt, price, precision=prec, **kw)
+        except _Hang:
+            ctx.violation(site, "hang", what + " did not stop", block=mini)
+            continue
+        except RuntimeError as e:
+            ctx.violation(site, "raises", what + f" raised {e}", observed=str(e), block=mini)
+            continue
+        got = iv.to(torch.float64).tolist()
+        vf = float(vv[0])
+        lo_f, hi_f = float(torch.tensor(lo_b, dtype=dtype)), float(torch.tensor(hi_b, dtype=dtype))
+        for (s, m, t), x in zip(cases, got):
+            bad = None
+            if not (lo_f <= x <= hi_f):
+                bad = ("outside_own_bracket", f"result {x!r} is outside the bracket [{lo_b}, {hi_b}] of this call")
+            elif vf < lo_f or vf > hi_f:
+                end = lo_f if vf < lo_f else hi_f
+                if abs(x - end) > prec + 4 * eps * abs(end):
+                    bad = ("target_outside_bracket", f"the generating volatility {vf} is outside [{lo_b}, {hi_b}]: the search must "
+                           f"end at {end}, got {x!r}")
+            else:
+                ok, _, fv, tolP = _iv_verdict(product, call, K, (s, s, t), vf, x, prec + 4 * eps * hi_f, 1, lo_f, hi_f, eps)
+                if not ok:
+                    bad = ("iv_in_history", f"price {fv!r} of volatility {vf} gives iv = {x!r}")
+            if bad:
+                ctx.violation(site, bad[0], what + f" at (s={s}, t={t}): " + bad[1], observed=x, expected=min(max(vf, lo_f), hi_f),
+                              block=mini)
+                break
+        key = (entry, tuple(bracket), v, block["dtype"], K, tuple(cases), prec)
+        if key in seen and not torch.equal(seen[key], iv):
+            ctx.violation(site, "result_depends_on_history", what + f": the same call returned {seen[key].tolist()} earlier in "
+                          f"this process and {iv.tolist()} now", observed=iv, expected=seen[key], block=mini)
+        seen.setdefault(key, iv.clone())
+    ctx.add("iv_histories", 1)
+    ctx.outcome(("hist", tuple(map(str, block["calls"])), block["dtype"]))
+
+
+_HISTORY_RESULTS = {}
+
+
 # ------------------------------------------------------------------------------------------------
 
 S_QUICK = [-0.5, -0.05, 0.0, 0.05, 0.5, 1.0]
@@ -792,8 +1221,8 @@ def run(ctx):
              "volatilities x precision, monotone cases only; non-trivial = (case, volatility) pairs where the price pins the "
              "volatility down to ~precision.  iv_batch: the same cases of one direction in one call")
     ctx.assume("torch.exp/log/tanh/sigmoid are accurate to 2 ulp (enters the rounding slack eta only)")
-    ctx.assume("functions handed to bisect are monotone in one common direction for all elements (a tensor function "
-               "with elements of opposite directions is outside the statement; bisect silently mis-solves those)")
+    ctx.assume("every element of a function handed to bisect is monotone on its bracket; elements of opposite directions in "
+               "one call are included (per-element direction, /repo 93b5433)")
     ctx.assume("closed-form prices of models/bs_closed.py (validated by quadrature in C08); strict monotonicity in "
                "volatility is decided by the sign of the model's vega at 31 log-spaced points of [0.001, 1] incl. both ends")
     quick = ctx.quick
@@ -840,6 +1269,9 @@ def run(ctx):
                             blocks.append({"fn": name, "decreasing": decreasing, "coeff": coeff, "slope": slope,
                                            "shape": shape, "dtype": dname, "bracket_kind": kind, "brackets": bset,
                                            "fractions": fractions, "rotation": rot, "precision": precision})
+    mixed = [dict(b, mixed_direction=True) for b in blocks
+             if b["coeff"] == "per_element" and b["dtype"] == "float64" and b["precision"] in (1e-4, 1e-6) and not b["decreasing"]]
+    blocks += mixed
     ctx.add("bisect_calls", len(blocks))
     for b in blocks:
         ctx.run("bisect_grid", b)
@@ -856,6 +1288,29 @@ def run(ctx):
         W = br[1] - br[0]
         ctx.run("bisect_abort", {"bracket": br, "precision": W / 2 ** k, "max_iter": max(k + dk, 0), "decreasing": decreasing,
                                  "shape": [3], "dtype": "float64", "fractions": [0.3, 0.5, 0.8]})
+    # lower-rank targets under vector / matrix valued functions, float64, tight precisions, both default dtypes
+    for name, decreasing, (shape, tshape), bounds, precision, dd in itertools.product(
+            ["affine", "exp", "cubic", "tanh"], [False, True], [([3], []), ([2, 3], []), ([2, 3], [3])], ["full", "0-dim"],
+            [1e-10, 1e-12], ["float32", "float64"]):
+        for rot in ([0] if quick else range(len(fractions))):
+            ctx.run("bisect_rank", {"fn": name, "decreasing": decreasing, "shape": shape, "tshape": tshape, "bounds": bounds,
+                                    "bracket": [0.1, 4.0], "precision": precision, "default_dtype": dd,
+                                    "fractions": [0.3, 0.55, 0.8, 0.1], "rotation": rot})
+    # float64 brackets (not integer valued) with float32 / integer targets: the bracket keeps its own dtype and values
+    for name, decreasing, (shape, tshape), tdt, precision, dd in itertools.product(
+            ["affine", "exp", "cubic"], [False, True], [([3], []), ([3], [3]), ([2, 3], [3])], ["float32", "int64"],
+            [1e-6, 1e-10], ["float32", "float64"]):
+        ctx.run("bisect_rank", {"fn": name, "decreasing": decreasing, "shape": shape, "tshape": tshape, "bounds": "0-dim",
+                                "bracket": [-0.5 if name != "affine" else 0.5, 3.5], "precision": precision, "default_dtype": dd,
+                                "target_dtype": tdt, "fractions": [0.3, 0.55, 0.8, 0.1], "rotation": 0})
+    # functions whose value is computed by autograd, with grad enabled and under an ambient no_grad
+    for name, ambient, shape, precision in itertools.product(AUTOGRAD_PROGRAMS, ["enable", "no_grad"], [[], [3]],
+                                                             [1e-4, 1e-6] if quick else [1e-2, 1e-4, 1e-6, 1e-8]):
+        if ambient == "no_grad" and name in ("poly_grad", "autogreek_delta"):
+            continue    # these do not enable grad themselves: not functions of x under no_grad (on /repo either)
+        for rot in range(len(fractions) if not quick else 2):
+            ctx.run("bisect_autograd", {"program": name, "ambient": ambient, "shape": shape, "precision": precision,
+                                        "fractions": fractions, "rotation": rot})
     # consecutive searches sharing the caller's bound tensors
     seq_progs = ["affine", "exp", "logistic", "cubic"] + ([] if quick else ["tanh"])
     kinds = [(f, d) for f in seq_progs for d in (False, True)]
@@ -915,6 +1370,41 @@ def run(ctx):
         for product in B.PRODUCTS:
             ivb.append({"product": product, "call": True, "K": 1.3, "grid": {"s": [-0.05, 0.05], "t": [0.08, 1.0], "m": m_alpha[:2]},
                         "precision": 1e-9})
+    # sub-spacing precision through every implied-volatility entry point
+    sub_cases = [[-0.05, -0.05, 0.5], [0.05, 0.05, 1.0]] if quick else [[-0.2, -0.2, 0.08], [-0.05, -0.05, 0.5], [0.05, 0.05, 1.0], [0.0, 0.05, 5.0]]
+    for product in B.PRODUCTS:
+        for call in ([True, False] if product in ("european", "european_binary") else [True]):
+            for dname, precisions_ in (("float32", [1e-12, 1e-9]), ("float64", [1e-20, 1e-18])):
+                for precision in precisions_:
+                    cs = [c if product in NEEDS_MAX else [c[0], c[0], c[2]] for c in sub_cases]
+                    cs = [c for c in cs if not (product == "american_binary" and c[1] >= 0)]
+                    ctx.run("iv_subulp", {"product": product, "call": call, "K": 1.3, "dtype": dname, "precision": precision,
+                                          "cases": cs, "v": [0.2, 0.35, 0.7]})
+    # one scalar float64 price against vector log-moneyness / maturity
+    for product in B.PRODUCTS:
+        for call in ([True, False] if product in ("european", "european_binary") else [True]):
+            if product in NEEDS_MAX:
+                cs = [[-0.2, -0.1, 0.5], [-0.1, -0.05, 1.0], [-0.05, -0.02, 0.5]]
+            elif product == "european_binary":
+                cs = [[0.05, 0.05, 0.5], [0.1, 0.1, 1.0], [0.2, 0.2, 0.5]] if call else [[-0.05, -0.05, 0.5], [-0.1, -0.1, 1.0], [-0.2, -0.2, 0.5]]
+            else:
+                cs = [[-0.1, -0.1, 0.5], [0.0, 0.0, 1.0], [0.1, 0.1, 0.5]]
+            for precision, dd in itertools.product([1e-10, 1e-12], ["float32", "float64"]):
+                ctx.run("iv_scalar_price", {"product": product, "call": call, "K": 1.3, "cases": cs, "v": 0.3,
+                                            "precision": precision, "default_dtype": dd})
+    # histories of searches with different brackets in one process (every ordered pair of calls is adjacent once)
+    ctx.alphabet("iv history brackets", IV_BRACKETS)
+    hist_cases = [[-0.1, -0.1, 0.5], [0.0, 0.0, 0.5], [0.1, 0.1, 1.0]]
+    calls = [["functional", br, v] for br in IV_BRACKETS for v in (0.2, 0.4, 0.6)] + [["module", [V_LO, V_HI], v] for v in (0.2, 0.6)]
+    for dname in ("float64", "float32"):
+        for c1, c2 in itertools.product(calls, calls):
+            ctx.run("iv_history", {"calls": [c1, c2], "dtype": dname, "K": 1.3, "cases": hist_cases,
+                                   "precision": 1e-6 if dname == "float64" else 1e-5})
+        if not quick:
+            sub = [c for c in calls if c[0] == "functional" and c[2] != 0.4]
+            for h in itertools.product(sub, repeat=3):
+                ctx.run("iv_history", {"calls": list(h), "dtype": dname, "K": 1.3, "cases": hist_cases,
+                                       "precision": 1e-6 if dname == "float64" else 1e-5})
     bound = []
     for product in B.PRODUCTS:
         for call in ([True, False] if product in ("european", "european_binary") else [True]):
